@@ -92,7 +92,7 @@ def handleSep (f k a : String) (rest : List String) : String :=
     | .error .missingRequired => "ERR:missingRequired"
     | .error .tooManyArgs => "ERR:tooManyArgs"
     | .ok (ins, attrs) =>
-      "ok | " ++ " ".intercalate (ins.map toString) ++ " | " ++
+      "ok | " ++ " ".intercalate (ins.map (fun x => match x with | some v => toString v | none => "None")) ++ " | " ++
         " ".intercalate (attrs.map (fun p => s!"{p.1}={p.2}"))
   | _, _, _ => "bad-op"
 
